@@ -48,3 +48,12 @@ claim(
     "abstract interpretation over a symbolic-shape array domain; symbolic differentiation of the normal form",
     "DESIGN.md §5 C19",
 )
+
+claim(
+    "C23",
+    "other",
+    "Decides structural necessary conditions of 'keeps exactly the connected material': the dilation kernels are the 6-connectivity cross in all three planes, each plane dilation is masked by the material (complement for air) so the front cannot leave it, the seed is the bottom layer, the final selection equals material AND connected on its whole truth table and is mapped back to material indices for both background positions, and the flood-fill loop either iterates to a fixpoint or has a trip count of total degree 3 in the grid dimensions (anything lower cuts serpentine paths short; the trip-count expression is extracted symbolically). Outcomes of connect_holes_and_structures on particular designs are not decided.",
+    TB + "; geodesic-length argument for the iteration bound (a face-connected path in X*Y*Z cells can have Theta(X*Y*Z) length)",
+    "abstract interpretation with recorded loop calls; degree domain on the trip count; boolean truth tables",
+    "DESIGN.md §5 C23",
+)
